@@ -17,7 +17,7 @@ package vmm
 //     logs it.
 // The events are judged by the TLA+ monitor specs/vmm/KernelPDTTrace.tla.
 //
-// Events:  cfg {off secs rsv tmp}   done {res walk bad nfail}   reset
+// Events:  cfg {off secs rsv hist tmp}   done {res walk bad nfail}   reset
 
 import (
 	"bufio"
@@ -296,16 +296,83 @@ func (m *c05Machine) setSections(secs []c05Sec) {
 
 // ---------------------------------------------------------------- one case
 
-type c05Rsv struct {
+// c05Req is one early virtual-region request the boot code makes before vmm.Init: either
+// EarlyReserveRegion(size) followed by Map of every page (kind 0) or MapRegion(frame, size, flags)
+// (kind 1).  Oversized requests (larger than the space that is left, up to 2^64-1) are part of the
+// history too: the real code has to refuse them.
+type c05Req struct {
+	Kind  int    `json:"k"`
+	Size  uint64 `json:"sz"`
 	Frame uint64 `json:"f"`
-	Flags uint64 `json:"fl"` // boot flags of the reserved page: bit0 RW, bit1 NX, bit2 US
+	Flags uint64 `json:"fl"` // boot permissions of the pages: bit0 RW, bit1 NX, bit2 US
 }
 
 type c05Case struct {
 	Off    uint64   `json:"off"`
 	Secs   []c05Sec `json:"secs"`
-	Rsv    []c05Rsv `json:"rsv"`    // lowest reserved page first
+	Hist   []c05Req `json:"hist"`   // boot history, in call order
 	FailAt int      `json:"failat"` // 0 = no allocation failure
+}
+
+func c05Perms(code uint64) PageTableEntryFlag {
+	fl := FlagPresent
+	if code&1 != 0 {
+		fl |= FlagRW
+	}
+	if code&2 != 0 {
+		fl |= FlagNoExecute
+	}
+	if code&4 != 0 {
+		fl |= FlagUserAccessible
+	}
+	return fl
+}
+
+// c05Request performs one request of the boot history on the real code.  It returns the result and the
+// addresses of the pages that are now reserved AND mapped (none for a refused request; none either if the
+// real code hands out something that does not lie below the temporary-mapping page, where nothing can be mapped).
+func c05Request(r c05Req) (res string, pages []uintptr) {
+	const maxPages = 64
+	fl := c05Perms(r.Flags)
+	n := uintptr(0)
+	if r.Size <= maxPages*4096 {
+		n = uintptr((r.Size + 4095) / 4096)
+	}
+	usable := func(a uintptr) bool {
+		return n > 0 && a%4096 == 0 && a >= tempMappingAddr-(1<<30) && a+n*4096 <= tempMappingAddr
+	}
+	defer func() {
+		if x := recover(); x != nil {
+			res, pages = "panic", nil
+		}
+	}()
+	if r.Kind == 0 {
+		a, err := EarlyReserveRegion(uintptr(r.Size))
+		if err != nil {
+			return "err", nil
+		}
+		if !usable(a) {
+			return "ok-unusable", nil
+		}
+		for i := uintptr(0); i < n; i++ {
+			if err := Map(mm.PageFromAddress(a+i*4096), mm.Frame(r.Frame)+mm.Frame(i*3), fl); err != nil {
+				return "maperr", pages
+			}
+			pages = append(pages, a+i*4096)
+		}
+		return "ok", pages
+	}
+	p, err := MapRegion(mm.Frame(r.Frame), uintptr(r.Size), fl)
+	if err != nil {
+		return "err", nil
+	}
+	if !usable(p.Address()) {
+		return "ok-unusable", nil
+	}
+	for i := uintptr(0); i < n; i++ {
+		pages = append(pages, p.Address()+i*4096)
+	}
+	return "ok", pages
 }
 
 func c05Run(m *c05Machine, enc *json.Encoder, c c05Case) {
@@ -321,26 +388,12 @@ func c05Run(m *c05Machine, enc *json.Encoder, c c05Case) {
 	if err := Map(mm.Page(0x42), mm.Frame(0x42), FlagPresent|FlagRW); err != nil {
 		panic("harness: boot map failed")
 	}
-	if n := len(c.Rsv); n > 0 {
-		start, err := EarlyReserveRegion(uintptr(n) * 4096)
-		if err != nil {
-			panic("harness: early reservation failed")
-		}
-		for i, r := range c.Rsv {
-			fl := FlagPresent
-			if r.Flags&1 != 0 {
-				fl |= FlagRW
-			}
-			if r.Flags&2 != 0 {
-				fl |= FlagNoExecute
-			}
-			if r.Flags&4 != 0 {
-				fl |= FlagUserAccessible
-			}
-			if err := Map(mm.PageFromAddress(start+uintptr(i)*4096), mm.Frame(r.Frame), fl); err != nil {
-				panic("harness: boot map failed")
-			}
-		}
+	var reserved []uintptr // pages reserved and mapped by the boot history (the harness's own record of what it did)
+	hist := []c05Ev{}
+	for _, r := range c.Hist {
+		res, pages := c05Request(r)
+		reserved = append(reserved, pages...)
+		hist = append(hist, c05Ev{"k": r.Kind, "sz": c05W64(r.Size), "f": c05W64(r.Frame), "fl": int(r.Flags), "res": res})
 	}
 	m.setSections(c.Secs)
 
@@ -350,18 +403,12 @@ func c05Run(m *c05Machine, enc *json.Encoder, c c05Case) {
 		secs = append(secs, c05Ev{"a": c05W64(s.Addr), "sz": c05W64(s.Size), "fl": int(s.Flags & 0xffff)})
 	}
 	rsv := []c05Ev{}
-	for a := earlyReserveLastUsed; a < tempMappingAddr; a += 4096 {
-		pa, _, _, _, ok := m.xlate(m.active, a)
-		if !ok {
-			panic("harness: reserved page not mapped in the boot address space")
+	for _, a := range reserved {
+		if pa, _, _, _, ok := m.xlate(m.active, a); ok {
+			rsv = append(rsv, c05Ev{"p": c05W64(uint64(a >> 12)), "f": c05W64(uint64(pa >> 12))})
 		}
-		rsv = append(rsv, c05Ev{"p": c05W64(uint64(a >> 12)), "f": c05W64(uint64(pa >> 12))})
 	}
-	rsvfl := []int{}
-	for _, r := range c.Rsv {
-		rsvfl = append(rsvfl, int(r.Flags))
-	}
-	enc.Encode(c05Ev{"k": "cfg", "off": c05W64(c.Off), "secs": secs, "rsv": rsv, "rsvfl": rsvfl,
+	enc.Encode(c05Ev{"k": "cfg", "off": c05W64(c.Off), "secs": secs, "rsv": rsv, "hist": hist,
 		"tmp": c05W64(uint64(tempMappingAddr >> 12)), "failat": c.FailAt, "leg": os.Getenv("VERIF_LEG")})
 
 	m.allocs, m.nfail, m.failAt = 0, 0, c.FailAt
@@ -420,7 +467,23 @@ type c05ModelCase struct {
 	Secs []struct {
 		A, Sz, Fl uint64
 	} `json:"secs"`
-	Rsv []uint64 `json:"rsv"` // boot flag code per reserved page
+	Hist []int64 `json:"hist"` // c >= 0: one-page request mapped with permission code c; -1..-5: oversized request
+}
+
+// c05Oversized: request sizes that cannot be satisfied when `good` pages have been reserved so far
+func c05Oversized(kind int64, good int) uint64 {
+	cur := uint64(tempMappingAddr) - uint64(good)*4096
+	switch kind {
+	case -1:
+		return cur + 1
+	case -2:
+		return cur + 4096
+	case -3:
+		return ^uint64(0) - 8191
+	case -4:
+		return ^uint64(0) - 4095
+	}
+	return ^uint64(0)
 }
 
 const c05RealOffset = uint64(0xffff800000000000)
@@ -446,8 +509,16 @@ func c05FromModel(mc c05ModelCase) c05Case {
 		}
 		c.Secs = append(c.Secs, c05Sec{Addr: a, Size: e - a, Flags: s.Fl})
 	}
-	for i, fl := range mc.Rsv {
-		c.Rsv = append(c.Rsv, c05Rsv{Frame: 0x3300 + uint64(i)*7, Flags: fl})
+	good := 0
+	for i, h := range mc.Hist {
+		r := c05Req{Kind: i % 2, Frame: 0x3300 + uint64(i)*7}
+		if h >= 0 {
+			r.Size, r.Flags = [3]uint64{4096, 1, 4095}[i%3], uint64(h)
+			good++
+		} else {
+			r.Size, r.Flags = c05Oversized(h, good), 1
+		}
+		c.Hist = append(c.Hist, r)
 	}
 	return c
 }
@@ -587,10 +658,33 @@ func c05RandomCase(rng *rand.Rand) c05Case {
 	if rng.Intn(2) == 0 {
 		rng.Shuffle(len(c.Secs), func(i, j int) { c.Secs[i], c.Secs[j] = c.Secs[j], c.Secs[i] })
 	}
-	nr := rng.Intn(7)
-	for i := 0; i < nr; i++ {
-		c.Rsv = append(c.Rsv, c05Rsv{Frame: uint64(0x1000 + rng.Intn(1<<24)), Flags: uint64(rng.Intn(8))})
+	// boot history: 0-6 successful requests of 1-3 pages; refused (oversized) requests before, between and after them
+	nr, good := rng.Intn(7), 0
+	refused := func() {
+		for rng.Intn(4) == 0 {
+			cur := uint64(tempMappingAddr) - uint64(good)*4096
+			var sz uint64
+			switch k := rng.Intn(8); k {
+			case 0, 1, 2, 3, 4:
+				sz = c05Oversized(-int64(k)-1, good)
+			case 5:
+				sz = cur + 1 + uint64(rng.Int63n(int64(^cur-8192))) // anything between the space left and 2^64
+			case 6:
+				sz = cur + uint64(1+rng.Intn(16))*4096
+			default:
+				sz = ^uint64(0) - uint64(rng.Intn(3*4096))
+			}
+			c.Hist = append(c.Hist, c05Req{Kind: rng.Intn(2), Size: sz, Frame: uint64(0x1000 + rng.Intn(1<<24)), Flags: uint64(rng.Intn(8))})
+		}
 	}
+	for i := 0; i < nr; i++ {
+		refused()
+		pages := 1 + rng.Intn(3)
+		sz := uint64(pages)*4096 - uint64([4]int{0, 1, 2048, 4095}[rng.Intn(4)])
+		c.Hist = append(c.Hist, c05Req{Kind: rng.Intn(2), Size: sz, Frame: uint64(0x1000 + rng.Intn(1<<24)), Flags: uint64(rng.Intn(8))})
+		good += pages
+	}
+	refused()
 	if rng.Intn(10) == 0 {
 		c.FailAt = 1 + rng.Intn(12)
 	}
